@@ -294,7 +294,7 @@ class WMSServer(Server):
         request.validate_srs(self.srs)
 
     def validate_layers(self, request):
-        query_layers = request.params.query_layers if hasattr(request, 'query_layers') else []
+        query_layers = request.params.query_layers if hasattr(request.params, 'query_layers') else []
         for layer in chain(request.params.layers, query_layers):
             if layer not in self.layers:
                 raise RequestError('unknown layer: ' + str(layer), code='LayerNotDefined',
